@@ -96,24 +96,30 @@ def append_probes(kind, keys, maxp):
     out = []
     others = [[], [["z", 1]], [[keys[0], maxp]], [[keys[0], maxp], ["z", 0]], [[keys[0], 0], [keys[-1], maxp]],
               [[keys[0], 0], [keys[-1], maxp], ["z", 1]], [[keys[0], 0], [keys[-1], maxp], ["z", 1], ["y", 0]]]
-    for oth in others:
-        build = [{"op": "new", "q": 2}] + [{"op": "push", "q": 2, "k": k, "r": r} for k, r in oth]
+    for oi, oth in enumerate(others):
+      # (the other queue with and without spare capacity: which queue survives must not depend on it)
+      for how in ([{"op": "new", "q": 2}], [{"op": "new", "q": 2, "how": "with_capacity", "cap": [64, 5, 1000][oi % 3]}]):
+        build = how + [{"op": "push", "q": 2, "k": k, "r": r} for k, r in oth]
         after = [{"op": "contents"}, {"op": "change_priority", "k": "z", "r": maxp}, {"op": "remove", "k": keys[0]},
                  {"op": "push", "k": "z", "r": 0}, {"op": "push", "k": keys[-1], "r": 1}, {"op": pm}, {"op": "contents"}]
         out.append(build + [{"op": "append", "q": 1, "o": 2}] + after)
         out.append(build + [{"op": "append", "q": 2, "o": 1}] + [dict(a, q=2) for a in after])
+        out.append(build + [{"op": "reserve", "q": 1, "n": 100}, {"op": "append", "q": 1, "o": 2}] + after)
     return out
 
 
 def reuse_probes(kind, keys, maxp):
-    """the queue emptied (clear, drain consumed to any extent, drain leaked) and then REUSED: refilled with at
+    """the queue emptied (clear, drain consumed to any extent, drain leaked, retain rejecting everything, popped or
+    removed dry) and then REUSED: refilled with at
     least three items, one of them removed by key, everything popped - the index tables of the first life must
     not show through in the second"""
     pm = ["pop"] if kind == "pq" else ["pop_min", "pop_max"]
     names = list(keys) + ["z", "y", "x"][:max(0, 3 - len(keys))]
     out = []
     empties = [[{"op": "clear"}], [{"op": "drain", "n": 0}], [{"op": "drain", "n": len(keys)}],
-               [{"op": "iter_calls", "it": "drain", "calls": [0], "forget": True}]]
+               [{"op": "iter_calls", "it": "drain", "calls": [0], "forget": True}],
+               [{"op": "retain", "keep": []}], [{"op": "retain_mut", "keep": []}],
+               [{"op": pm[0]}] * len(keys), [{"op": "remove", "k": k} for k in keys]]
     for emp in empties:
         for vi, v in enumerate(names):
             for desc in (False, True):
@@ -564,6 +570,38 @@ def p_C14(tier, seed):
         return g
     f = run_kind("pq")
     f.merge(run_kind("dpq"))
+    # twins: "a clone behaves identically under every subsequent operation sequence" taken literally - the same
+    # operations (incl. two-queue ones against identically built partners) on a source and on its clone, which
+    # differ in nothing but capacity / hasher state; afterwards they must still be equal (`clone_diverged`)
+    rng = random.Random(seed * 17 + 3)
+    cases = []
+    for kind in ("pq", "dpq"):
+        pm = "pop" if kind == "pq" else "pop_min"
+        i = 0
+        for c1 in (0, 10, 64, 1000):
+            for c2 in (0, 5, 20, 100, 2000):
+                for ln in (1, 2, 3, 5):
+                    i += 1
+                    keys = ["k%d" % j for j in range(ln)]
+                    steps = [{"op": "new", "q": 1, "how": "with_capacity", "cap": c1}]
+                    steps += [{"op": "push", "q": 1, "k": k, "r": j} for j, k in enumerate(keys)]
+                    steps += [{"op": "clone", "q": 3, "src": 1}]
+                    for q2 in (2, 4):
+                        steps += [{"op": "new", "q": q2, "how": "with_capacity", "cap": c2}]
+                        steps += [{"op": "push", "q": q2, "k": k, "r": j + 10} for j, k in enumerate(keys[:max(1, ln - i % 2)])]
+                        steps += [{"op": "push", "q": q2, "k": "z", "r": 3}] * (i % 2)
+                    tail = [{"op": "extend", "pairs": [[keys[0], 7], ["y", 1]], "hint": [0, -4]}, {"op": "reserve", "n": rng.choice([0, 3, 50])},
+                            {"op": "shrink_to_fit"}, {"op": pm}, {"op": "push", "k": "x", "r": rng.randint(-2, 12)}]
+                    for q1, q2 in ((1, 2), (3, 4)):
+                        steps += [{"op": "append", "q": q1, "o": q2}] + [dict(st, q=q1) for st in tail]
+                    steps += [{"op": "eq", "q": 1, "o": 3, "twin": True}, {"op": "ne", "q": 3, "o": 1, "twin": True},
+                              {"op": "eq", "q": 2, "o": 4, "twin": True}, {"op": "contents", "q": 1}, {"op": "contents", "q": 3}]
+                    cases.append({"case": [kind, "twin", c1, c2, ln], "kind": kind, "hasher": "std", "universe": keys + ["x", "y", "z"],
+                                  "steps": steps, "probes": [], "wit": []})
+    t = engines.Findings()
+    t.stats["engines"].append({"engine": "X-twin", "cases": len(cases)})
+    engines.replay_and_validate(cases, vlib.workdir("C14_X"), "X-twin", t)
+    f.merge(t)
     return f
 
 
@@ -697,6 +735,14 @@ def p_C17(tier, seed):
                 out.append([{"op": op, "n": a}] + after)
         out.append([{"op": "shrink_to_fit"}] + after)
         out.append([{"op": "reserve", "n": 100}, {"op": "shrink_to_fit"}] + after)
+        # capacity must not decide the outcome of a later two-queue operation either
+        for mine in ([], [{"op": "reserve", "n": 100}], [{"op": "shrink_to_fit"}]):
+            for cap2 in (0, 64, 1000):
+                other = [{"op": "new", "q": 2, "how": "with_capacity", "cap": cap2}] + \
+                        [{"op": "push", "q": 2, "k": k, "r": maxp - i % 2} for i, k in enumerate(keys)]
+                # (a tail runs on the history's own queue, which is queue 0)
+                out.append(mine + other + [{"op": "append", "q": 0, "o": 2}, {"op": "contents"}] + after)
+                out.append(mine + other + [{"op": "append", "q": 2, "o": 0}, {"op": "contents", "q": 2}])
         # a failing request on a queue WITH spare capacity (which it must keep)
         for op in ("try_reserve", "try_reserve_exact"):
             for a in ("max", "max-1", "max/2", "max/8", "2^45"):
@@ -822,7 +868,7 @@ PROPS = {
             and bool(set(fl["tags"]) & {"iter_dup", "iter_unknown", "iter_missing", "iter_after_none", "iter_len", "iter_hint", "iter_panic", "iter_last", "iter_position", "iter_provided"})},
     "C14": {"run": p_C14, "level": "model_checking", "aborts": True,
             "relevant": lambda fl: fl["op"] in ("eq", "ne", "clone", "clone_from") or fl["cause_op"] in ("clone", "clone_from")
-            or fl["phase"] == "hist"
+            or fl["phase"] == "hist" or "clone_diverged" in fl["tags"]
             or (fl["op"] in ("contents",) and fl.get("event", {}).get("q") == 0)},
     "C15": {"run": p_C15, "level": "model_checking", "aborts": True,
             "relevant": lambda fl: fl["cause_op"] in ("de", "roundtrip", "de_tokens", "ser") or fl["op"] in ("de", "roundtrip", "de_tokens", "ser")
